@@ -110,6 +110,8 @@ def _shard_entry(args):
         stats = ShardStats()
         if part == 'hyp':
             _run_hypothesis(chk, tier, seed, shard, nshards, stats)
+        elif part == 'fuzz':
+            _run_fuzz(chk, tier, seed, shard, nshards, stats)
         else:
             chk.extra_shard(tier, seed, shard, nshards, stats)
         return stats.dump()
@@ -146,6 +148,63 @@ def _run_hypothesis(chk, tier, seed, shard, nshards, stats):
         stats.add(case, out)
 
     drive()
+
+
+def _run_fuzz(chk, tier, seed, shard, nshards, stats):
+    """Coverage-guided campaign (atheris/libFuzzer over the check's own
+    strategy and oracle, vt/fuzz.py) in a child process; every case it
+    reports is re-executed here, uninstrumented, and kept only if the same
+    signature shows again."""
+    import shutil
+    import subprocess
+    import tempfile
+    runs = chk.fuzz_budget(tier)[1]
+    try:
+        import atheris  # noqa
+    except Exception:
+        stats.extra['fuzz'] = {'skipped': 'atheris not importable'}
+        return
+    d = tempfile.mkdtemp(prefix='vt-fuzz-')
+    out = os.path.join(d, 'stats.json')
+    try:
+        cmd = [sys.executable, '-m', 'vt.fuzz', chk.id, tier, str(runs),
+               str(derive_seed(seed, shard, chk.id + 'fuzz')), out]
+        r = subprocess.run(cmd, cwd=VERIF, capture_output=True, text=True,
+                           env=dict(os.environ, PYTHONHASHSEED='0'))
+        if not os.path.exists(out):
+            raise RuntimeError('fuzz child produced no statistics:\n'
+                               + r.stderr[-2000:])
+        with open(out) as f:
+            d2 = json.load(f)
+        cov = None
+        for line in r.stderr.splitlines():
+            if ' cov: ' in line:
+                try:
+                    cov = int(line.split(' cov: ')[1].split()[0])
+                except ValueError:
+                    pass
+        stats.evaluations += d2['evaluations']
+        stats.nontrivial.update(d2['nontrivial'])
+        for k, v in d2['classes'].items():
+            stats.classes[k] = stats.classes.get(k, 0) + v
+        stats.inconclusive += d2['inconclusive']
+        stats.errors += d2['errors']
+        unrepro = 0
+        for sig, (msg, case, n) in d2['violations'].items():
+            try:
+                again = chk.execute(case)
+            except Exception:
+                again = {}
+            if any(s2 == sig for s2, _ in again.get('violations') or []):
+                stats.violations[sig] = (msg, case, n)
+            else:
+                unrepro += 1
+        stats.extra[f'fuzz{shard}'] = {
+            'executions': d2['extra'].get('fuzz_execs', 0),
+            'valid_cases': d2['evaluations'], 'edges_covered': cov,
+            'unreproduced': unrepro}
+    finally:
+        shutil.rmtree(d, ignore_errors=True)
 
 
 def minimise(chk, case, sig, budget=250):
@@ -260,6 +319,10 @@ def main(argv=None):
         jobs += [(pid, tier, seed, i, nshards, 'hyp') for i in range(nshards)]
     nx = chk.extra_shards(tier)
     jobs += [(pid, tier, seed, i, nx, 'extra') for i in range(nx)]
+    nf = chk.fuzz_budget(tier)[0] if chk.strategy(tier) is not None else 0
+    if os.environ.get('VT_NO_FUZZ'):
+        nf = 0
+    jobs += [(pid, tier, seed, i, nf, 'fuzz') for i in range(nf)]
     ctx = mp.get_context('fork')
     limit = float(os.environ.get(
         'VT_WATCHDOG_S', '2400' if tier == 'quick' else '14400'))
@@ -361,6 +424,22 @@ def main(argv=None):
         'known_findings_seen': sorted(seen_known),
     }
     cov.update(chk.coverage_extra(tier, results))
+    fz = [v for k, v in extra_cov.items() if k.startswith('fuzz')]
+    if fz:
+        if any('skipped' in v for v in fz):
+            cov['coverage_guided'] = fz[0]
+        else:
+            cov['coverage_guided'] = {
+                'engine': 'atheris/libFuzzer over Hypothesis fuzz_one_input '
+                          '(same strategy, same oracle; bytecode coverage of '
+                          's3transfer only)',
+                'campaigns': len(fz),
+                'executions': sum(v['executions'] for v in fz),
+                'valid_cases': sum(v['valid_cases'] for v in fz),
+                'edges_covered_max': max((v['edges_covered'] or 0)
+                                         for v in fz),
+                'reported_but_not_reproduced_uninstrumented':
+                    sum(v['unreproduced'] for v in fz)}
     ev = {
         'property_id': pid, 'tier': tier, 'seed': seed,
         'level': chk.level, 'coverage': cov,
